@@ -37,7 +37,6 @@ BatchGhostNext(k, e, gb) ==
   ELSE IF k = "Tx" /\ e.ok /\ e.name \in IndirectSwapMsgs THEN [gb EXCEPT !.opaque = TRUE]
   ELSE gb
 
-UserAccts(s) == {s.users[i] : i \in DOMAIN s.users}
 EndSwaps(e) == SelectSeq(e.abci, LAMBDA x : x.type = "token_swapped" /\ "mode" \in DOMAIN x /\ x.mode = "EndBlock")
 
 \* chain of hop events E[i .. i + hops - 1] settles request r within its limits
